@@ -295,6 +295,32 @@ func runC13(r *mc.Run) {
 	}{{"-1", world.DERInt64(-1)}, {"256", world.DERInt64(256)}, {"65536", world.DERInt64(65536)}, {"2^63", world.DERInt(two63)},
 		{"20byte", world.DERInt(huge)}, {"0xC8-one-octet", world.DER(0x02, []byte{0xC8})}, {"-129", world.DERInt64(-129)}, {"empty-int", world.DER(0x02)},
 		{"octet", world.DEROctet([]byte{5})}, {"null", world.DER(0x05)}, {"bool", world.DER(0x01, []byte{0xff})}, {"utf8", world.DER(0x0c, []byte("5"))}, {"enum", world.DER(0x0a, []byte{5})}}
+	// a legal INTEGER wrapped in another type (OCTET STRING, SEQUENCE, SET, explicit context tag, BIT STRING): the
+	// member is not an INTEGER
+	for _, v := range []int64{0, 5, 11, 200} {
+		in := world.DERInt64(v)
+		badInts = append(badInts,
+			struct {
+				name string
+				der  []byte
+			}{fmt.Sprintf("octet-string-holding-integer-%d", v), world.DEROctet(in)},
+			struct {
+				name string
+				der  []byte
+			}{fmt.Sprintf("sequence-holding-integer-%d", v), world.DERSeq(in)},
+			struct {
+				name string
+				der  []byte
+			}{fmt.Sprintf("set-holding-integer-%d", v), world.DER(0x31, in)},
+			struct {
+				name string
+				der  []byte
+			}{fmt.Sprintf("context0-holding-integer-%d", v), world.DER(0xa0, in)},
+			struct {
+				name string
+				der  []byte
+			}{fmt.Sprintf("bit-string-holding-integer-%d", v), world.DER(0x03, append([]byte{0}, in...))})
+	}
 	// values that agree with a legal one in their low 8 / 16 / 32 bits (an INTEGER may be up to 8 octets and more)
 	wideLegal := map[string]*big.Int{}
 	for _, k := range []uint{8, 16, 24, 31, 32, 33, 40, 48, 56, 62} {
